@@ -47,7 +47,20 @@ def encoding_string(es, scale, sig_bits):
 
 
 def subst(bits, asg):
-    return [asg.get(b[2], b) if is_lit(b) else b for b in bits]
+    """apply an assignment {literal index: 0/1}; complemented literals evaluate to the complement"""
+    out = []
+    for b in bits:
+        if is_lit(b) and b[2] in asg:
+            v = asg[b[2]]
+            out.append(1 - v if b[3] else v)
+        else:
+            out.append(b)
+    return out
+
+
+def setbit(asg, b, v):
+    """make the (possibly complemented) literal bit b evaluate to v"""
+    asg[b[2]] = (1 - v) if b[3] else v
 
 
 def sym_inc(bits):
@@ -78,9 +91,9 @@ def rounding_cases(B, nk, full=True, key_ids=()):
         for rv in ((0, 1) if is_lit(r) else (r,)):
             asg = {}
             if is_lit(x):
-                asg[x[2]] = xv
+                setbit(asg, x, xv)
             if is_lit(r):
-                asg[r[2]] = rv
+                setbit(asg, r, rv)
             kept = subst(B[:nk], asg)
             if rv == 0:
                 yield dict(asg), kept, 'x=%d r=0' % xv
@@ -92,7 +105,7 @@ def rounding_cases(B, nk, full=True, key_ids=()):
                 # tie
                 a2 = dict(asg)
                 for b in st_lits:
-                    a2[b[2]] = 0
+                    setbit(a2, b, 0)
                 yield a2, kept, 'x=0 r=1 tie'
                 # highest set sticky bit = j
                 idxs = list(range(len(st_lits)))
@@ -102,8 +115,8 @@ def rounding_cases(B, nk, full=True, key_ids=()):
                 for j in idxs:
                     a3 = dict(asg)
                     for b in st_lits[:j]:
-                        a3[b[2]] = 0
-                    a3[st_lits[j][2]] = 1
+                        setbit(a3, b, 0)
+                    setbit(a3, st_lits[j], 1)
                     yield a3, sym_inc(kept), 'x=0 r=1 sticky@%d' % j
                 continue
             # xv == 1, rv == 1: round up whatever the sticky bits are; split on the run of ones above x
@@ -118,9 +131,9 @@ def rounding_cases(B, nk, full=True, key_ids=()):
             for t in ts:
                 a4 = dict(asg)
                 for b in run[:t]:
-                    a4[b[2]] = 1
+                    setbit(a4, b, 1)
                 if t < len(run):
-                    a4[run[t][2]] = 0
+                    setbit(a4, run[t], 0)
                 k2 = subst(B[:nk], a4)
                 yield a4, sym_inc(k2), 'x=1 r=1 ones=%d%s' % (t, '' if t < len(run) else '(all)')
 
@@ -142,7 +155,12 @@ def clamp_const(bits, nk):
 def instantiate(bits, asg_full):
     v = 0
     for b in bits:
-        v = (v << 1) | (asg_full[b[2]] if is_lit(b) else b)
+        if is_lit(b):
+            x = asg_full[b[2]]
+            x = 1 - x if b[3] else x
+        else:
+            x = b
+        v = (v << 1) | x
     return v
 
 
@@ -338,8 +356,8 @@ def decide(ctx, I, rule, label, cname, path, mkargs, gargs, negative, want, conc
         stats['proved'] += 1
         if len(res) > 1:
             stats['proved_by_path_enumeration'] += 1
-    elif sub_cells is not None and len(outs) > 1:
-        # a path of the enumeration could not be compared (it holds on part of the cell only): partition the cell instead
+    elif sub_cells is not None:
+        # a path could not be compared (it holds on part of the cell only), or an undecided test flowed into the result as data: partition the cell
         del ctx.undecided.get('rounding_inconsistent', [])[n_inc:]
         if not ctx.undecided.get('rounding_inconsistent', True):
             del ctx.undecided['rounding_inconsistent']
@@ -618,13 +636,18 @@ def directed_cases(B, nk, up, full=True):
     if any(b == 1 for b in frac):
         variants.append(({}, True, 'frac>0(const)'))
     else:
-        variants.append(({b[2]: 0 for b in flits}, False, 'frac=0'))
+        a0 = {}
+        for b in flits:
+            setbit(a0, b, 0)
+        variants.append((a0, False, 'frac=0'))
         idxs = list(range(len(flits)))
         if not full and len(idxs) > 3:
             idxs = [0, len(idxs) // 2, len(idxs) - 1]
         for j in idxs:
-            a = {b[2]: 0 for b in flits[:j]}
-            a[flits[j][2]] = 1
+            a = {}
+            for b in flits[:j]:
+                setbit(a, b, 0)
+            setbit(a, flits[j], 1)
             variants.append((a, True, 'frac top@%d' % j))
     for a, inc, name in variants:
         if not inc:
@@ -642,9 +665,9 @@ def directed_cases(B, nk, up, full=True):
         for t in ts:
             a4 = dict(a)
             for b in run[:t]:
-                a4[b[2]] = 1
+                setbit(a4, b, 1)
             if t < len(run):
-                a4[run[t][2]] = 0
+                setbit(a4, run[t], 0)
             yield a4, sym_inc(subst(kept, a4)), '%s ones=%d' % (name, t)
 
 
@@ -932,3 +955,293 @@ def parallel_quire_to_posit(ctx, prog, rule, q, frac_bits, full, p_step=1, worke
     for k_, v in tot.items():
         ctx.count('rounding_%s' % k_, v)
     return tot
+
+
+# ------------------------------------------------------------------------------------------------ one symbolic operand: a (+) b with a constant
+
+def _sym_sum(abits, bbits):
+    """a + b on position -> bit maps (a constant, b constants / literals); None if a literal meets a one or a carry (then not a routing)"""
+    lo = min(list(abits) + list(bbits))
+    hi = max(list(abits) + list(bbits)) + 1
+    out = {}
+    carry = 0
+    for pos in range(lo, hi + 1):
+        x = abits.get(pos, 0)
+        y = bbits.get(pos, 0)
+        if is_lit(y):
+            if x != 0 or carry != 0:
+                return None
+            out[pos] = y
+            continue
+        t = x + y + carry
+        out[pos] = t & 1
+        carry = t >> 1
+    return out
+
+
+def _sym_diff(abits, bbits, l):
+    """a - b (a > b > 0) on position -> bit maps; l = position of the lowest set bit of b (bbits[l] == 1, everything below 0).
+    Uses a + (2^W - b) - 2^W with the two's complement of b written bit by bit (complemented literals above l)."""
+    lo = min(list(abits) + list(bbits))
+    hi = max(list(abits) + list(bbits)) + 1
+    nb = {}
+    for pos in range(lo, hi + 1):
+        y = bbits.get(pos, 0)
+        if pos < l:
+            nb[pos] = 0
+        elif pos == l:
+            nb[pos] = 1
+        else:
+            nb[pos] = (y[0], y[1], y[2], not y[3]) if is_lit(y) else 1 - y
+    sm = _sym_sum(abits, nb)
+    if sm is None:
+        return None
+    # drop the 2^W term: the sum's bit at hi + 1 (carry out) must be 1 and is removed
+    top = max(sm)
+    if sm.get(top) != 1:
+        return None
+    del sm[top]
+    return sm
+
+
+def _value_bits(scale, frac_bits):
+    """position -> bit of 2^scale * 1.frac (frac msb first)"""
+    d = {scale: 1}
+    for i, b in enumerate(frac_bits):
+        d[scale - 1 - i] = b
+    return d
+
+
+def _frac_len(pty, scale):
+    k = scale >> pty.es
+    reg = (k + 2) if k >= 0 else (-k + 1)
+    return max(0, pty.bits - 1 - reg - pty.es)
+
+
+def add_cells(pty, full, scales=None, gmax=None, op='add', t=0):
+    """cells for a + b, a > b > 0: a = 2^s * 1.F constant (F = 0 or all ones), b any posit of the regime cell g+1 binades below the lowest
+    set bit region of a such that the sum is a routing of b's bits; then the rounding cases of the sum.
+    yields (name, a_encoding, b bits msb first, expected n-1 bits)"""
+    p = pty.posit
+    n, es = pty.bits, pty.es
+    nk = n - 1
+    maxs = (n - 2) << es
+    for s in (scales if scales is not None else range(-maxs, maxs)):
+        fa = _frac_len(pty, s)
+        for Fname, F in (('1.0', [0] * fa), ('1.1..1', [1] * fa)):
+            if fa == 0 and Fname != '1.0':
+                continue
+            a_enc = p.encode(Fraction(2) ** s * (1 + (Fraction(int(''.join(map(str, F)), 2), 1 << fa) if fa else 0)))
+            if p.decode(a_enc) != Fraction(2) ** s * (1 + (Fraction(int(''.join(map(str, F)), 2), 1 << fa) if fa else 0)):
+                continue        # not representable (the regime cuts into the exponent field)
+            abits = _value_bits(s, F)
+            low_a = s - fa            # lowest position a can express
+            # b's leading one at sb: for F = 1.1..1 it must meet the lowest one of a (sb = low_a) or lie below a entirely (sb < low_a)
+            g_hi = gmax if gmax is not None else (fa + 6)
+            for sb in range(s - 1, s - g_hi - 1, -1):
+                if sb < -maxs:
+                    break
+                sbi = sb - t         # b's own scale (the product 2^t * b sits at sb)
+                if not (-maxs <= sbi < maxs):
+                    continue
+                fb = _frac_len(pty, sbi)
+                if p.decode(p.encode(Fraction(2) ** sbi)) != Fraction(2) ** sbi:
+                    continue
+                lits0 = [lit(fb - 1 - i) for i in range(fb)]
+                kb = sbi >> es
+                eb = sbi - (kb << es)
+                regb = [1] * (kb + 1) + [0] if kb >= 0 else [0] * (-kb) + [1]
+                known_b = (regb + [(eb >> (es - 1 - i)) & 1 for i in range(es)])[:n - 1]
+                # subtraction: partition b by its lowest set bit (the hidden one, or fraction literal j); addition: one variant
+                variants = [('', lits0, None)]
+                if op == 'sub':
+                    if sb >= s - 1:
+                        continue        # cancellation of the leading bit: the position of the result's leading one is not fixed by the cell
+                    variants = [(' frac=0', [0] * fb, sb)]
+                    js = list(range(fb)) if (full or fb <= 4) else sorted({0, 1, fb // 2, fb - 1})
+                    for j in js:
+                        variants.append((' low@%d' % j, [lit(fb - 1 - i) if (fb - 1 - i) > j else (1 if (fb - 1 - i) == j else 0) for i in range(fb)], sb - fb + j))
+                for vname, lits, l in variants:
+                    bv = _value_bits(sb, lits)
+                    sm = _sym_sum(abits, bv) if op == 'add' else _sym_diff(abits, bv, l)
+                    if sm is None:
+                        continue
+                    nz = [pos for pos, b in sm.items() if b != 0]
+                    if not nz:
+                        continue
+                    top = max(nz)
+                    if is_lit(sm[top]):
+                        continue
+                    frac = [sm.get(pos, 0) for pos in range(top - 1, min(sm) - 1, -1)]
+                    B = encoding_string(es, top, frac)
+                    for asg, want, cname in rounding_cases(B, nk, full):
+                        if want is None:
+                            continue
+                        want = clamp_const(want, nk)
+                        bbits = ([0] + known_b + subst(lits, asg))[:n]
+                        yield ('a=2^%d*%s b@2^%d%s %s' % (s, Fname, sb, vname, cname), a_enc, bbits, want)
+
+
+def check_add(ctx, prog, rule, label, path, pty, full, scales=None, swap=False, negative=False, seed=1, op='add'):
+    """a + b with one operand constant and the other symbolic (see add_cells): the result vector must be the correctly rounded sum for
+    every b of the cell.  swap: the symbolic operand comes first; negative: both operands negated (the result must be the negation)."""
+    import collections
+    I = Interp(prog, max_steps=200000)
+    stats = collections.Counter()
+    rng = random.Random(seed)
+    P = pty.posit
+    n = pty.bits
+
+    def const_arg(u):
+        sv = u - (1 << n) if u >> (n - 1) else u
+        return AAgg(pty.tykey, [AInt.const(n, True, sv)])
+
+    def mkc(a_enc, bits):
+        def concrete(asg):
+            u = 0
+            for b in bits:
+                u = (u << 1) | (asg.get(b[2], asg.get('*', 0)) if is_lit(b) else b)
+            ua, ub = (((-a_enc) & mask(n)), ((-u) & mask(n))) if negative else (a_enc, u)
+            va, vb = P.decode(ua), P.decode(ub)
+            args = [const_arg(ub), const_arg(ua)] if swap else [const_arg(ua), const_arg(ub)]
+            return args, '%#x + %#x (%s + %s)' % ((ub, ua, float(vb), float(va)) if swap else (ua, ub, float(va), float(vb))), P.encode((va + vb) if op == 'add' else ((vb - va) if swap else (va - vb))), lambda a: I.run(path, a, {})
+        return concrete
+    for cname, a_enc, bits, want in add_cells(pty, full, scales, op=op):
+        fa_ = {}
+        u = 0
+        for b in bits:
+            if is_lit(b):
+                fa_[b[2]] = rng.getrandbits(1)
+            u = (u << 1) | (fa_[b[2]] if is_lit(b) else b)
+        assert P.encode((P.decode(a_enc) + P.decode(u)) if op == 'add' else (P.decode(a_enc) - P.decode(u))) == instantiate(want, fa_), ('oracle mismatch', label, cname)
+        aa = (-a_enc) & mask(n) if negative else a_enc
+
+        def mk(bits=bits, aa=aa):
+            bv = posit_input(pty, bits, negative)
+            return [bv, const_arg(aa)] if swap else [const_arg(aa), bv]
+
+        def subs(bits=bits, want=want, aa=aa, a_enc=a_enc):
+            for a2, sub in refine_cells(list(reversed(bits)), want):
+                b2 = subst(bits, a2)
+
+                def mk2(b2=b2, aa=aa):
+                    bv = posit_input(pty, b2, negative)
+                    return [bv, const_arg(aa)] if swap else [const_arg(aa), bv]
+                yield sub, mk2, [0] + subst(want, a2), mkc(a_enc, b2)
+        res_neg = negative ^ (op == 'sub' and swap)
+        decide(ctx, I, rule, label, ('-' if negative else '+') + cname, path, mk, {}, res_neg, [0] + want, mkc(a_enc, bits), stats, subs)
+    for k_, v in stats.items():
+        ctx.count('opcells_%s' % k_, v)
+    return stats
+
+
+_TASKS = {}
+
+
+def _task_worker(i):
+    func, args, kwargs = _TASKS['tasks'][i]
+    c = _Collector()
+    st = func(c, _TASKS['prog'], *args, **kwargs)
+    return dict(st), [(f.rule, f.fn, f.instance, f.msg, f.details, f.alt) for f in c.findings], c.samples, c.undecided
+
+
+def run_parallel(ctx, prog, tasks, workers=None, prefix='opcells_'):
+    """tasks: list of (func, args, kwargs) with func(ctx, prog, *args, **kwargs) -> Counter; run in forked workers (the program facts are
+    inherited, nothing is pickled but the results) and merged into ctx.  Returns the summed Counter."""
+    import collections
+    import multiprocessing as mp
+    import os
+    workers = workers or min(16, os.cpu_count() or 4, len(tasks))
+    tot = collections.Counter()
+    if workers <= 1 or len(tasks) <= 1:
+        for func, args, kwargs in tasks:
+            tot.update(func(ctx, prog, *args, **kwargs))
+        return tot
+    _TASKS.update(prog=prog, tasks=tasks)
+    with mp.get_context('fork').Pool(workers) as pool:
+        for st, fs, samples, und in pool.imap_unordered(_task_worker, range(len(tasks))):
+            tot.update(st)
+            for rule_, fn, inst, msg, det, alt in fs:
+                f = ctx.finding(rule_, fn, inst, msg, det, alt=alt)
+                if det and det.get('cells') and f.details is not det:
+                    f.details.setdefault('cells', []).extend(det['cells'])
+            for s_ in samples:
+                ctx.sample(s_, limit=8)
+            for k, v in und.items():
+                ctx.undecided.setdefault(k, []).extend(v if isinstance(v, list) else [v])
+    for k_, v in tot.items():
+        ctx.count(prefix + k_, v)
+    return tot
+
+
+FMA_VARIANTS = {
+    # function: list of (family, builder(c, b, pw) -> args, result negated?)   c: constant addend, b: symbolic operand (may be negated), pw: 2^t
+    'mul_add': [('add', lambda c, b, nb, pw: [pw, b, c], False), ('sub', lambda c, b, nb, pw: [pw, nb, c], False), ('add', lambda c, b, nb, pw: [b, pw, c], False)],
+    'mul_sub': [('add', lambda c, b, nb, pw, : [pw, b, ('neg', c)], False), ('sub', lambda c, b, nb, pw: [pw, b, c], True)],
+    'sub_product': [('sub', lambda c, b, nb, pw: [c, pw, b], False), ('add', lambda c, b, nb, pw: [c, pw, nb], False)],
+}
+
+
+def check_fma(ctx, prog, rule, label, path, pty, fname, variant, full, scales=None, t=0, seed=1):
+    """fused family with one symbolic operand: x*y+z etc. where one factor is the constant 2^t, the other every posit b of a regime cell and
+    the addend a constant c = 2^s * 1.0 / 2^s * 1.1..1 such that the exact result c +/- 2^t*b is a routing of b's bits."""
+    import collections
+    I = Interp(prog, max_steps=200000)
+    stats = collections.Counter()
+    rng = random.Random(seed)
+    P = pty.posit
+    n = pty.bits
+    family, build, res_neg = FMA_VARIANTS[fname][variant]
+    pw_enc = P.encode(Fraction(2) ** t)
+    if P.decode(pw_enc) != Fraction(2) ** t:
+        return stats
+
+    def const_arg(u):
+        u &= mask(n)
+        sv = u - (1 << n) if u >> (n - 1) else u
+        return AAgg(pty.tykey, [AInt.const(n, True, sv)])
+
+    def args_for(c_enc, bval_pos, bval_neg):
+        raw = build(c_enc, bval_pos, bval_neg, pw_enc)
+        out = []
+        for x in raw:
+            if isinstance(x, tuple) and x[0] == 'neg':
+                out.append(const_arg(-x[1]))
+            elif isinstance(x, int):
+                out.append(const_arg(x))
+            else:
+                out.append(x)
+        return out
+
+    def real(fn, vals):
+        x, y, z = vals
+        return {'mul_add': x * y + z, 'mul_sub': x * y - z, 'sub_product': x - y * z}[fn]
+
+    def mkc(c_enc, bits):
+        def concrete(asg):
+            u = 0
+            for b in bits:
+                u = (u << 1) | (asg.get(b[2], asg.get('*', 0)) if is_lit(b) else b)
+            args = args_for(c_enc, const_arg(u), const_arg(-u))
+            vals = [P.decode(result_int(a).uval()) for a in args]
+            return args, '%s(%s)' % (fname, ', '.join('%#x' % result_int(a).uval() for a in args)), P.encode(real(fname, vals)), lambda a: I.run(path, a, {})
+        return concrete
+    for cname, c_enc, bits, want in add_cells(pty, full, scales, op=family, t=t):
+        fa_ = {}
+        u = 0
+        for b in bits:
+            if is_lit(b):
+                fa_[b[2]] = rng.getrandbits(1)
+            u = (u << 1) | (fa_[b[2]] if is_lit(b) else b)
+        pv = P.decode(u) * Fraction(2) ** t
+        assert P.encode((P.decode(c_enc) + pv) if family == 'add' else (P.decode(c_enc) - pv)) == instantiate(want, fa_), ('oracle mismatch', label, cname)
+
+        def mk(bits=bits, c_enc=c_enc):
+            return args_for(c_enc, posit_input(pty, bits, False), posit_input(pty, bits, True))
+
+        def subs(bits=bits, want=want, c_enc=c_enc):
+            for a2, sub in refine_cells(list(reversed(bits)), want):
+                b2 = subst(bits, a2)
+                yield sub, (lambda b2=b2, c_enc=c_enc: args_for(c_enc, posit_input(pty, b2, False), posit_input(pty, b2, True))), [0] + subst(want, a2), mkc(c_enc, b2)
+        decide(ctx, I, rule, label, 't=%d v%d %s' % (t, variant, cname), path, mk, {}, res_neg, [0] + want, mkc(c_enc, bits), stats, subs)
+    return stats
